@@ -68,19 +68,35 @@ fn stub_emits(env: &Env, mode: &str, raw: &str) -> (Vec<u8>, Option<i32>) {
     (out.stdout, out.status.code())
 }
 
-pub struct C20Fmt;
+pub struct C20Fmt {
+    /// false: C20 (delivery under a formatter). true: the same machinery serving C10 — a formatter
+    /// that FAILS VISIBLY (killed by a signal in the middle of its output, exit status 1 / 2 / 3,
+    /// output that is not UTF-8) must not cost a single definition: the bindings are the
+    /// unformatted ones or the completely formatted ones, never a part of them
+    pub c10: bool,
+}
 
 impl Scenario for C20Fmt {
     fn property(&self) -> &'static str {
-        "C20"
+        if self.c10 {
+            "C10"
+        } else {
+            "C20"
+        }
     }
     fn name(&self) -> &'static str {
-        "fmt"
+        if self.c10 {
+            "formatter-faults"
+        } else {
+            "fmt"
+        }
     }
     fn runs(&self, tier: Tier) -> u64 {
-        match tier {
-            Tier::Quick => 700,
-            Tier::Thorough => 8000,
+        match (tier, self.c10) {
+            (Tier::Quick, false) => 700,
+            (Tier::Thorough, false) => 8000,
+            (Tier::Quick, true) => 500,
+            (Tier::Thorough, true) => 6000,
         }
     }
     fn needs_reference(&self) -> bool {
@@ -117,8 +133,17 @@ impl Scenario for C20Fmt {
             7 => "exit3".to_string(),
             8 => format!("die:{}", f.below(200_000)),
             9 => "badutf8".to_string(),
-            10 => "noread".to_string(),
+            10 if !self.c10 => "noread".to_string(),
+            10 => format!("die:{}", f.below(4000)),
             _ => format!("die:{}", f.below(64)),
+        };
+        // (C10: a formatter that exits 0 without having read anything LIES about its success;
+        // no caller can see through that, so it is not a fault this property is judged under)
+        let mode = if self.c10 && f.chance(1, 2) {
+            let span = if f.chance(1, 2) { 3000 } else { 60_000 };
+            format!("die:{}", 1 + f.below(span))
+        } else {
+            mode
         };
         let install = match f.below(10) {
             0..=4 => Install::CargoHome,
@@ -223,6 +248,44 @@ impl Scenario for C20Fmt {
         out.count(&format!("install.{:?}", p.install), 1);
         if raw.generated.len() > 65536 {
             out.count("probe.formatter_input_over_64KiB", 1);
+        }
+        if self.c10 {
+            // ---- C10 under a faulty formatter
+            let (full, _) = stub_emits(env, "ok", &raw.generated);
+            out.sigs.push(mix(fnv1a(raw.generated.as_bytes()), fnv1a(format!("{}{:?}", p.mode, p.install).as_bytes())));
+            out.log_hash = fnv1a(format!("{}|{}", a.brief(), b.brief().replace(root, "")).as_bytes());
+            out.sample = Some(json!({"case": ctx}));
+            for (what, r, text) in [("compile_to_string()", &a, Some(a.generated.clone().into_bytes())), ("compile()", &b, delivered.clone())] {
+                if let Some(pn) = &r.panic {
+                    out.violate("returns-normally", format!("panic {pn} in {what}; {ctx}"));
+                    continue;
+                }
+                if !r.ok {
+                    out.count("not_judged.err_under_this_formatter", 1);
+                    continue;
+                }
+                let Some(text) = text else { continue };
+                let whole = text == raw.generated.as_bytes() || text == full;
+                if whole {
+                    out.count(if text == full { "bindings.completely_formatted" } else { "bindings.unformatted" }, 1);
+                    continue;
+                }
+                let new_warnings = r.warnings.iter().filter(|w| !raw.warnings.contains(w)).count();
+                if new_warnings == 0 {
+                    // which definitions are gone: item names of the raw bindings that the text lacks
+                    let t = String::from_utf8_lossy(&text).to_string();
+                    let mut missing = vec![];
+                    let toks: Vec<&str> = raw.generated.split_whitespace().collect();
+                    for w in toks.windows(2) {
+                        if matches!(w[0], "struct" | "enum" | "const" | "static" | "type") && !t.contains(w[1]) {
+                            missing.push(w[1].to_string());
+                        }
+                    }
+                    missing.dedup();
+                    out.violate("no-silent-loss", format!("{what} returned Ok without a new warning, but the bindings ({} bytes) are neither the unformatted ({} bytes) nor the completely formatted ones ({} bytes); items missing from them: {:?}; {ctx}", text.len(), raw.generated.len(), full.len(), missing.iter().take(8).collect::<Vec<_>>()));
+                }
+            }
+            return out;
         }
         if let Some(pn) = a.panic.as_ref().or(b.panic.as_ref()) {
             out.violate("O7-no-panic", format!("panic {pn}; {ctx}"));
